@@ -998,7 +998,7 @@ def c17(tier):
     legacy = []
     for i, t in enumerate(texts):
         for (label, codec, bom) in cli.LEGACY:
-            w = cli.SAMPLE_WORDS.get(codec, "x")
+            w = cli.SAMPLE_WORDS.get(codec, "x") if (i // 2) % 2 == 0 else cli.ALT_WORDS.get(codec, cli.SAMPLE_WORDS.get(codec, "x"))
             words = w.split()
             body = t + f"\n// {w}\nS := '{words[0]}';\n" + (f"{words[0]}x := 1;\n" if words[0].isidentifier() else "")
             if (i + len(label)) % 4 == 0:
@@ -1035,6 +1035,17 @@ def c17(tier):
         c.nontrivial += 1
         for p in problems:
             c.add_violation({"prop": "C17", "clause": p["clause"], "detail": p["detail"], "case": {"label": "pair/" + sc["label"]}})
+    # malformed files between well-formed ones in one invocation: rejection of one file must not reach into the next
+    rb = [{"n": n, "bad": bad, "threads": th, "seed": SEED * 100 + k} for k, (n, bad, th) in enumerate(
+        [(32, [0], 1), (32, [3, 4], 1), (24, [0, 23], 1), (40, [7], 2), (16, [1], 1), (32, [15, 16, 17], 1)] + Q(tier, [], [(64, [0, 9, 31], 1), (64, [5], 3), (128, [2, 64], 2), (32, [31], 1)]))]
+    res = cli.run_scenarios(cli.run_reject_batch_scenario, rb, threads=3)
+    for sc, (problems, skipped) in zip(rb, res):
+        if skipped:
+            continue
+        c.evaluations += sc["n"]
+        c.nontrivial += sc["n"]
+        for p in problems:
+            c.add_violation({"prop": "C17", "clause": p["clause"], "detail": p["detail"], "case": {"label": f"reject-batch n={sc['n']} bad={sc['bad']}"}})
     unenc = [{"label": l, "raw": r} for (l, r) in cli.UNENCODABLE]
     res = cli.run_scenarios(cli.run_unencodable_scenario, unenc, threads=4)
     for sc, (problems, skipped) in zip(unenc, res):
@@ -1046,7 +1057,7 @@ def c17(tier):
     c.exhaustive = True
     return c.finish(
         rule="CliEnc.tla defines UTF-8 and UTF-16 (LE/BE, surrogate pairs) from their specifications and enumerates texts of <= 2 characters from {a, e-acute, euro, U+3000, an astral emoji} x 7 stored forms (with / without BOM) x 4 `encoding` options (a BOM must win) x damages (odd-length UTF-16, lone surrogate, invalid UTF-8 byte): "
-             "every scenario's input bytes and expected output bytes come from the model and are compared with the file written by the real binary and with its piped stdin->stdout; a text that itself begins with U+FEFF after the real BOM keeps it; plus seed programs with non-ASCII comments / strings / identifiers in 21 encodings incl. legacy code pages, CJK multi-byte encodings and the stateful ISO-2022-JP, a quarter of them 20..400 KiB large (expected = BOM + encode(format(decode)); the written file must be accepted by --mode=check; the piped path must give the same bytes, also when the producer delivers the BOM byte by byte); several files of one encoding in one invocation on one worker (long first); bytes that decode to a character the encoding cannot encode again (the file stays untouched when the run fails)",
+             "every scenario's input bytes and expected output bytes come from the model and are compared with the file written by the real binary and with its piped stdin->stdout; a text that itself begins with U+FEFF after the real BOM keeps it; plus seed programs with non-ASCII comments / strings / identifiers in 21 encodings incl. legacy code pages, CJK multi-byte encodings and the stateful ISO-2022-JP, a quarter of them 20..400 KiB large (expected = BOM + encode(format(decode)); the written file must be accepted by --mode=check; the piped path must give the same bytes, also when the producer delivers the BOM byte by byte); several files of one encoding in one invocation on one worker (long first); malformed files between well-formed ones of four encodings in one invocation on one or two workers; words that are longer in the legacy encoding than in UTF-8; bytes that decode to a character the encoding cannot encode again (the file stays untouched when the run fails)",
         assumptions=["for legacy code pages the codec tables of Python / encoding_rs are trusted; the code under test is pasfmt's use of them"])
 
 
